@@ -238,3 +238,31 @@ def cache_inplace_mutations(prog, pm):
                 if isinstance(outk, ast.Name) and outk.id in level1:
                     out.append((fi, n, f"`{src(n)[:50]}` writes into {level1[outk.id]} in place"))
     return out
+
+
+def helper_closure(prog, fi, depth=3):
+    """``fi`` plus the helpers it reaches inside its own class (self.m(...) / self.prop) and module (f(...)), to the
+    given depth.  Rules that ask "does F do X" search this closure, so that moving X into a helper does not read as
+    "X is gone"; the world is closed by the call graph, not by the function boundary."""
+    from ..callgraph import CallGraph
+
+    cg = getattr(prog, "_cg", None)
+    if cg is None:
+        cg = prog._cg = CallGraph(prog)
+    seen = {fi.qual: fi}
+    frontier = [fi]
+    for _ in range(depth):
+        nxt = []
+        for f in frontier:
+            owner = cg.owner_class(f)
+            for c in cg.callees(f):
+                if c.qual in seen:
+                    continue
+                same_cls = owner is not None and c.cls is not None and (c.cls.name == owner.name or prog.is_subclass(owner.name, c.cls.name))
+                same_mod = c.module is f.module and c.cls is None
+                nested = c.parent is not None and c.parent.qual in seen
+                if same_cls or same_mod or nested:
+                    seen[c.qual] = c
+                    nxt.append(c)
+        frontier = nxt
+    return list(seen.values())
